@@ -615,7 +615,16 @@ class ClientSession:
                     self._retry_connection and method in IDEMPOTENT_METHODS
                 )
                 while True:
-                    url, auth_from_url = strip_auth_from_url(url)
+                    try:
+                        url, auth_from_url = strip_auth_from_url(url)
+                    except ValueError as e:
+                        # e.g. a percent-encoded ":" in the user name
+                        err_exc_cls = (
+                            InvalidUrlRedirectClientError
+                            if redirects
+                            else InvalidUrlClientError
+                        )
+                        raise err_exc_cls(url, str(e)) from e
                     if not url.raw_host:
                         # NOTE: Bail early, otherwise, causes `InvalidURL` through
                         # NOTE: `self._request_class()` below.
